@@ -914,10 +914,16 @@ class Exec:
             return v.getter(self, st, i)
         if isinstance(v, DictV):
             k = self.ev(sl, st)
+            if type(k) is StrV and not k.s.startswith("<"):
+                if k.s in v.items:
+                    return v.items[k.s]
+                raise PyRaise("KeyError", f"{k.s!r} is not a key (the key set is concrete)")
             if isinstance(k, StrV):
                 if k.s in v.items:
                     return v.items[k.s]
                 raise Undecided(f"KeyError {k.s!r} (key set is concrete)")
+            if isinstance(k, NoneV) and all(isinstance(x, str) for x in v.items):
+                raise PyRaise("KeyError", "None is not a key of a dictionary with string keys")
             raise Undecided("dict lookup with non-constant key")
         if isinstance(v, ARef):
             return self.arr_subscript(st, v, sl, e)
